@@ -29,6 +29,19 @@ func NewTableWriter(fs storage.FileSystem, id int64) *TableWriter {
 	return &TableWriter{fs: fs, id: atomicNum}
 }
 
+// SkipPast advances the next table ID beyond the IDs used by the file names of
+// the given tables so that a restored database never overwrites their files.
+func (c *TableWriter) SkipPast(levels *LevelList) {
+	for level := range levels.DescendLevels() {
+		for t := range level.AllTables() {
+			var id int64
+			if _, err := fmt.Sscanf(t.Name(), "%d.sst", &id); err == nil && id >= c.id.Load() {
+				c.id.Store(id + 1)
+			}
+		}
+	}
+}
+
 func (c *TableWriter) Write(entries iter.Seq[kv.Entry]) (*Table, error) {
 	reservedNum := c.id.Add(1) - 1
 	f := c.fs.New(fmt.Sprintf("%06d.sst", reservedNum))
